@@ -79,6 +79,7 @@ type WSpec struct {
 	RunToHow string     `json:"runtohow,omitempty"` // "name" | "regex" | "procs"
 	Direct   string     `json:"direct,omitempty"`   // narrow-seam driver instead of a workflow (direct.go)
 	MkDirs   []string   `json:"mkdirs,omitempty"` // directories created before the run
+	UndoEdges []Edge           `json:"undo_edges,omitempty"` // file edges that are connected and then taken apart again (public Disconnect on both ports)
 	PreFiles map[string]string `json:"prefiles,omitempty"` // other regular files present before the run
 	Symlinks map[string]string `json:"symlinks,omitempty"` // symbolic links (name -> target) present before the run
 	PartialUnits  []string          `json:"partial_units,omitempty"`  // C02 histories: also pre-create only these out-ports of a multi-output task
@@ -354,6 +355,16 @@ func (w *WSpec) build(env *Env) *built {
 				ip.From(op)
 			}
 		}
+	}
+	for _, e := range w.UndoEdges {
+		from, to := b.procs[e.From], b.procs[e.To]
+		ip, op := to.InPorts()[e.ToPort], from.OutPorts()[e.FromPort]
+		if ip == nil || op == nil {
+			panic(fmt.Sprintf("bad undo edge %+v", e))
+		}
+		ip.From(op)
+		op.Disconnect(ip.Name())
+		ip.Disconnect(op.Name())
 	}
 	for i := range w.Procs {
 		ps := &w.Procs[i]
